@@ -672,6 +672,99 @@ fn decode_dom(kind: Kind, r: impl Read) -> Result<Result<forest::CanonDom, Strin
     })
 }
 
+/// Delivery independence for attribute blobs and for files far larger than any read buffer.
+#[derive(Clone, Debug, Serialize, Deserialize)]
+pub enum BigDelivery {
+    /// an attribute blob (generated map) read through the chopped reader
+    Attributes { entries: Vec<(String, GVal)>, partition: Vec<u8> },
+    /// a file with one incompressible value of `n` bytes (format 0..3 binary compression, 3 XML)
+    LargeFile { n: usize, format: u8, partition: Vec<u8> },
+}
+
+fn big_delivery_body(case: &BigDelivery, ctx: &mut CaseCtx) -> PropResult {
+    match case {
+        BigDelivery::Attributes { entries, partition } => {
+            let bytes = super::c14::crate_encode(entries)?;
+            let oneshot = catch(|| rbx_types::Attributes::from_reader(bytes.as_slice()).map_err(|e| e.to_string())).map_err(|i| Fail::new(panic_key(&i), i.msg))?;
+            let mut rd = Chopped { data: &bytes, pos: 0, plan: partition, step: 0, interrupts: 0, just_interrupted: false };
+            let chopped = catch(|| rbx_types::Attributes::from_reader(&mut rd).map_err(|e| e.to_string())).map_err(|i| Fail::new(panic_key(&i), format!("with chopped delivery: {}", i.msg)))?;
+            ctx.label("attribute_blob");
+            ctx.label_if(rd.interrupts > 0, "interrupted_reads_injected");
+            ctx.nontrivial_if(!entries.is_empty());
+            match (oneshot, chopped) {
+                (Ok(a), Ok(b)) => ensure!(super::c14::observe_attrs(&a) == super::c14::observe_attrs(&b), "delivery:different-value:Attributes", "decoded attribute map depends on how the reader delivered the bytes"),
+                (Err(_), Err(_)) => {}
+                (Ok(_), Err(e)) => {
+                    let k = if rd.interrupts > 0 && e.to_lowercase().contains("interrupt") { "delivery:interrupted-read-not-retried:Attributes" } else { "delivery:rejects-when-chopped:Attributes" };
+                    fail!(k, "a {}-byte attribute blob decodes in one piece but not in pieces {:?}: {e}", bytes.len(), partition)
+                }
+                (Err(e), Ok(_)) => fail!("delivery:accepts-when-chopped:Attributes", "one-shot decode fails ({e}) but chopped delivery succeeds"),
+            }
+        }
+        BigDelivery::LargeFile { n, format, partition } => {
+            let forest = super::c01::large_forest(&super::c01::LargeCase::LongValue { kind: "Incompressible".into(), n: *n });
+            let (kind, bytes) = render_file(&FileCase { forest, format: *format })?;
+            let oneshot = decode_dom(kind, bytes.as_slice()).map_err(|i| Fail::new(panic_key(&i), i.msg))?;
+            let mut rd = Chopped { data: &bytes, pos: 0, plan: partition, step: 0, interrupts: 0, just_interrupted: false };
+            let chopped = decode_dom(kind, &mut rd).map_err(|i| Fail::new(panic_key(&i), format!("with chopped delivery: {}", i.msg)))?;
+            ctx.label("large_file");
+            ctx.label_if(rd.interrupts > 0, "interrupted_reads_injected");
+            ctx.nontrivial();
+            match (oneshot, chopped) {
+                (Ok(a), Ok(b)) => ensure!(a == b, format!("delivery:different-dom:{kind:?}"), "decoded DOM of a {}-byte file depends on how the reader delivered the bytes", bytes.len()),
+                (Err(_), Err(_)) => {}
+                (Ok(_), Err(e)) => {
+                    let k = if rd.interrupts > 0 && e.to_lowercase().contains("interrupt") { format!("delivery:interrupted-read-not-retried:{kind:?}") } else { format!("delivery:rejects-when-chopped:{kind:?}") };
+                    fail!(k, "a {}-byte file decodes in one piece but not in pieces {:?} ({} interrupts): {e}", bytes.len(), partition, rd.interrupts)
+                }
+                (Err(e), Ok(_)) => fail!(format!("delivery:accepts-when-chopped:{kind:?}"), "one-shot decode fails ({e}) but chopped delivery succeeds"),
+            }
+        }
+    }
+    Ok(())
+}
+
+/// Blob decoders reached with arbitrary bytes: directly, and through a property of a file.
+#[derive(Clone, Debug, Serialize, Deserialize)]
+pub struct BlobCase {
+    /// 0 MaterialColors::decode, 1 Tags::decode, 2 Terrain.MaterialColors in a binary file, 3 the same in XML,
+    /// 4 Instance.Tags in a binary file, 5 Instance.Tags in XML
+    pub route: u8,
+    pub bytes: Vec<u8>,
+}
+
+fn blob_body(c: &BlobCase, ctx: &mut CaseCtx) -> PropResult {
+    ctx.label(["blob:MaterialColors::decode", "blob:Tags::decode", "blob:MaterialColors-in-binary", "blob:MaterialColors-in-xml", "blob:Tags-in-binary", "blob:Tags-in-xml"][(c.route % 6) as usize]);
+    ctx.nontrivial_if(!c.bytes.is_empty());
+    let in_binary = |class: &str, prop: &str| -> Vec<u8> {
+        let cls = refbin::BinClass { id: 0, name: class.to_string(), object_format: 0, referents: vec![0], markers: vec![] };
+        let chunks = vec![
+            PlannedChunk { name: *b"INST", data: refbin::inst_chunk(&cls), comp: Comp::None },
+            PlannedChunk { name: *b"PROP", data: refbin::prop_chunk(0, "Name", &refbin::Column::String(vec![b"t".to_vec()]), Dialect::implementation()), comp: Comp::None },
+            PlannedChunk { name: *b"PROP", data: refbin::prop_chunk(0, prop, &refbin::Column::String(vec![c.bytes.clone()]), Dialect::implementation()), comp: Comp::Lz4 },
+            PlannedChunk { name: *b"PRNT", data: refbin::prnt_chunk(&[(0, -1)]), comp: Comp::None },
+            refbin::end_chunk(),
+        ];
+        refbin::assemble(1, 1, &chunks)
+    };
+    let in_xml = |class: &str, prop: &str| -> Vec<u8> {
+        let b64 = base64::encode(&c.bytes);
+        format!("<roblox version=\"4\"><Item class=\"{class}\" referent=\"R1\"><Properties><string name=\"Name\">t</string><BinaryString name=\"{prop}\">{b64}</BinaryString></Properties></Item></roblox>").into_bytes()
+    };
+    let outcome = match c.route % 6 {
+        0 => catch(|| rbx_types::MaterialColors::decode(&c.bytes).is_ok()).map(|_| ()),
+        1 => catch(|| rbx_types::Tags::decode(&c.bytes).is_ok()).map(|_| ()),
+        2 => catch(|| rbx_binary::from_reader(in_binary("Terrain", "MaterialColors").as_slice()).is_ok()).map(|_| ()),
+        3 => catch(|| rbx_xml::from_reader_default(in_xml("Terrain", "MaterialColors").as_slice()).is_ok()).map(|_| ()),
+        4 => catch(|| rbx_binary::from_reader(in_binary("Folder", "Tags").as_slice()).is_ok()).map(|_| ()),
+        _ => catch(|| rbx_xml::from_reader_default(in_xml("Folder", "Tags").as_slice()).is_ok()).map(|_| ()),
+    };
+    if let Err(info) = outcome {
+        return Err(Fail::new(panic_key(&info), format!("a {}-byte blob {:02x?} makes a decoder panic: {}", c.bytes.len(), &c.bytes[..c.bytes.len().min(24)], info.msg)));
+    }
+    Ok(())
+}
+
 fn delivery_body(case: &DeliveryCase, ctx: &mut CaseCtx) -> PropResult {
     let (kind, base) = match render_file(&case.file) {
         Ok(x) => x,
@@ -968,6 +1061,53 @@ pub fn run(ctx: &Ctx) -> PropertyReport {
         r.floor("interrupted_reads_injected", cases / 20);
         r.floor("one_byte_reads", cases / 50);
         rep.push(r);
+    }
+    if sub.runs("delivery-big") {
+        // fixed list: every format x sizes straddling 64 KiB x partitions with and without interrupts
+        let mut cases: Vec<BigDelivery> = Vec::new();
+        for format in 0u8..4 {
+            for n in [70_000usize, 200_000] {
+                for partition in [vec![255u8, 0, 255, 255], vec![0u8, 255], vec![97u8], vec![255u8, 255, 255, 255, 255, 255, 255, 0]] {
+                    cases.push(BigDelivery::LargeFile { n, format, partition });
+                }
+            }
+        }
+        let mut r = ctx.run_list("delivery-big", cases, true, big_delivery_body);
+        r.notes.push("files holding one incompressible value of 70 000 / 200 000 bytes, every format, read through short reads with Interrupted errors at positions beyond the first 64 KiB".into());
+        rep.push(r);
+    }
+    if sub.runs("delivery-attributes") {
+        let cases = ctx.cfg.cases(30_000, 600_000);
+        let strat = || {
+            (
+                super::c14::attr_case(6),
+                prop_oneof![
+                    1 => Just(vec![1u8]),
+                    1 => Just(vec![0u8, 1]),
+                    1 => Just(vec![3u8]),
+                    3 => proptest::collection::vec(prop_oneof![1 => Just(0u8), 4 => 1u8..=9], 1..8),
+                ],
+            )
+                .prop_map(|(a, partition)| BigDelivery::Attributes { entries: a.entries, partition })
+        };
+        let mut r = ctx.run_prop("delivery-attributes", cases, strat, big_delivery_body);
+        r.floor("interrupted_reads_injected", cases / 20);
+        rep.push(r);
+    }
+    if sub.runs("blob-decoders") {
+        let cases = ctx.cfg.cases(60_000, 2_000_000);
+        let strat = || {
+            (
+                0u8..6,
+                prop_oneof![
+                    3 => proptest::collection::vec(any::<u8>(), 0..80),
+                    1 => (0usize..80).prop_map(|n| vec![0u8; n]),
+                    1 => (60usize..80, any::<u8>()).prop_map(|(n, b)| vec![b; n]),
+                ],
+            )
+                .prop_map(|(route, bytes)| BlobCase { route, bytes })
+        };
+        rep.push(ctx.run_prop("blob-decoders", cases, strat, blob_body));
     }
     if sub.runs("fuzz-artifacts") && (ctx.cfg.tier == crate::engine::Tier::Thorough || ctx.cfg.replay.is_some()) {
         let arts = if ctx.cfg.replay.is_some() { vec![] } else { load_artifacts() };
